@@ -126,7 +126,14 @@ def r2_construction(prog, rep: Report, im):
     a_ends = kwarg(c, "ends", 1)
     rel = kwarg(c, "eq_relation", 3)
     nodup = kwarg(c, "force_no_dup_check", 2)
-    good = a_starts is not None and a_ends is not None and src(a_starts) == starts_arr[0] and src(a_ends) == ends_arr[0]
+    from ..util import alias_classes
+    same = alias_classes(f.node, f.self_name)        # names bound by the inliner (parameters, returned tuples) name the same lists
+    def _uncopy(e):
+        while isinstance(e, ast.Call) and src(e.func) in ("list", "tuple") and len(e.args) == 1 and not e.keywords:
+            e = e.args[0]                   # a copy of the list holds the same starts / ends in the same order
+        return e
+    a_starts, a_ends = (_uncopy(a_starts) if a_starts is not None else None), (_uncopy(a_ends) if a_ends is not None else None)
+    good = a_starts is not None and a_ends is not None and same(a_starts, starts_arr[0]) and same(a_ends, ends_arr[0])
     if not good and a_starts is not None and a_ends is None and src(a_starts) in (f"{mapping}.keys()", mapping, f"list({mapping}.keys())", f"list({mapping})"):
         good = True            # the keys *are* the (start, end) pairs, in the order the arrays were filled
     if isinstance(rel, ast.Name):
@@ -155,8 +162,15 @@ def r2_construction(prog, rep: Report, im):
             left_s = src(expand_all(n.test.left, flow, keep=(ss_var,) if ss_var else ()))
             right_s = src(expand_all(n.test.comparators[0], flow, keep=(ss_var,) if ss_var else ()))
             sides = {left_s, right_s}
-            if f"len({ss_var})" in sides and (f"len({mapping})" in sides or f"len({starts_arr[0]})" in sides
-                                               or f"len({ends_arr[0]})" in sides or f"len({vals_arr[0]})" in sides):
+
+            def _counts_intervals(txt: str) -> bool:
+                if txt == f"len({mapping})":
+                    return True
+                if txt.startswith("len(") and txt.endswith(")"):
+                    inner = txt[4:-1]
+                    return any(same(inner, arr) for arr in (starts_arr[0], ends_arr[0], vals_arr[0] if vals_arr else starts_arr[0]))
+                return False
+            if f"len({ss_var})" in sides and any(_counts_intervals(x) for x in sides):
                 found = True
                 op = n.test.ops[0]
                 exc = _raises(n.body)
@@ -263,6 +277,21 @@ class _LenSubst(ast.NodeTransformer):
         return node
 
 
+def _fields_named_by(init: Func, local: str):
+    """fields of self that are assigned the local (alone or inside a tuple assignment): `self._sortedEnds, self._idx = a, b`"""
+    out = []
+    for n in walk_own(init.node):
+        if isinstance(n, ast.Assign) and len(n.targets) == 1:
+            t, v = n.targets[0], n.value
+            items = list(zip(t.elts, v.elts)) if isinstance(t, (ast.Tuple, ast.List)) and isinstance(v, (ast.Tuple, ast.List)) \
+                and len(t.elts) == len(v.elts) else [(t, v)]
+            for a, b in items:
+                d = dotted(a)
+                if isinstance(b, ast.Name) and b.id == local and d and len(d) == 2 and d[0] == init.self_name:
+                    out.append(d[1])
+    return out
+
+
 def interval_roles(init: Func) -> Dict[str, str]:
     """which container of __init__ plays which part, found by what is appended to it:
     starts / ends / values   receive the start, the end and the value of `for (start, end), value in mapping.items()`;
@@ -316,6 +345,13 @@ def interval_roles(init: Func) -> Dict[str, str]:
         a = argsort_construction(init)
         if a is not None:
             roles["perm"], roles["sorted"] = a["perm"], a["sorted"]
+    # a local list that the constructor stores into a field afterwards (the filling loop may come from an inlined helper) is named
+    # by that field
+    for role, txt in list(roles.items()):
+        if isinstance(txt, str) and txt.isidentifier():
+            flds = _fields_named_by(init, txt)
+            if len(flds) == 1:
+                roles[role] = f"{init.self_name}.{flds[0]}"
     return roles
 
 
@@ -394,6 +430,10 @@ def r3_lookup(prog, rep: Report, im):
                     d = dotted(st.value.func.value)
                     if d and len(d) == 2:
                         apps[d[1]] = src(st.value.args[0])
+                    elif d and len(d) == 1:
+                        # a local list that is stored into a field afterwards (the loop may live in an inlined helper)
+                        for fld_ in _fields_named_by(init, d[0]):
+                            apps[fld_] = src(st.value.args[0])
             if apps.get(sorted_arr) == e_name:
                 perm = [k2 for k2, v in apps.items() if v == i_name]
                 perm_arr = perm[0] if perm else None
@@ -424,13 +464,21 @@ def r3_lookup(prog, rep: Report, im):
         rep.unrec("C16.R3", init, "sorted-ends", f"construction of self.{sorted_arr} and its permutation array not recognised")
         return
     roles = interval_roles(init)
-    rep.check("C16.R3", init, "sorted-ends", aligned and built_from == roles.get("ends"),
-              f"self.{sorted_arr} / self.{perm_arr} built index-aligned from sorted(enumerate({built_from}), key=end)",
-              f"self.{sorted_arr} / self.{perm_arr} are not built index-aligned and ascending by interval end from {built_from}",
-              scenario="the bisect runs over an unsorted or misaligned array: keys inside an interval raise KeyError or "
-                       "return another interval's value")
+    from ..util import alias_classes as _ac
+    _same = _ac(init.node, init.self_name)
+    if not roles.get("ends"):
+        rep.unrec("C16.R3", init, "sorted-ends", "which container holds the interval ends was not recognised in the constructor")
+    else:
+      rep.check("C16.R3", init, "sorted-ends", aligned and (built_from == roles.get("ends") or (roles.get("ends") and built_from
+                                                                                               and _same(built_from, roles.get("ends")))),
+                f"self.{sorted_arr} / self.{perm_arr} built index-aligned from sorted(enumerate({built_from}), key=end)",
+                f"self.{sorted_arr} / self.{perm_arr} are not built index-aligned and ascending by interval end from {built_from}",
+                scenario="the bisect runs over an unsorted or misaligned array: keys inside an interval raise KeyError or "
+                         "return another interval's value")
     inits = [val for t, val, st_ in __import__("sa.util", fromlist=["iter_stores"]).iter_stores(init.node)
              if dotted(t) == (init.self_name, sorted_arr) and val is not None]
+    _fl = Flow(init.node)
+    inits = [(_fl.expand(v) if isinstance(v, ast.Name) else v) for v in inits]            # a local list stored into the field
     plain = all(isinstance(v, ast.List) or (isinstance(v, ast.Call) and src(v.func) == "list") or isinstance(v, ast.ListComp) for v in inits)
     rep.check("C16.R3", init, "ends-container", bool(inits) and plain, f"self.{sorted_arr} is a plain list (ends stored as given)",
               f"self.{sorted_arr} is initialised as `{src(inits[0]) if inits else '?'}`: a typed container converts the interval ends "
